@@ -521,6 +521,52 @@ CONTRACTS.append(Contract("wntr.network.base:Link.start_node/end_node setters", 
                           interpret_always=(_set_end,)))
 
 
+# ---------------------------------------------------------------------------- PatternRegistry.add_pattern
+
+def _add_pattern_case(kind):
+    """every registered pattern runs on the MODEL's clock (options.time): a list, a Pattern without time options and a Pattern built with time options
+    of its own all end up with the model's TimeOptions object; an existing name is refused and nothing changes"""
+    def build(cx):
+        from wntr.network.elements import Pattern
+        from wntr.network.options import TimeOptions
+        model_time = SymObj(TimeOptions, dict(pattern_timestep=cx.int("model_pattern_timestep"), pattern_start=cx.int("model_pattern_start")))
+        own_time = SymObj(TimeOptions, dict(pattern_timestep=cx.int("own_pattern_timestep"), pattern_start=cx.int("own_pattern_start")))
+        existing = SymObj(Pattern, dict(name="old", _multipliers=[cx.real("old_m0")], _time_options=model_time, wrap=True))
+        data = {"old": existing}
+        reg = SymObj(MODEL.PatternRegistry, dict(_data=data, _usage={}, _options=types.SimpleNamespace(time=model_time)))
+        name = "old" if kind.endswith("name_taken") else "pat"
+        if kind.startswith("list"):
+            arg = [1.0, 2.5]          # (numpy builds the array natively)
+        else:
+            arg = SymObj(Pattern, dict(name=name, _multipliers=[cx.real("m0"), cx.real("m1")], wrap=True,
+                                       _time_options=own_time if kind.startswith("pattern_with_its_own_time_options") else None))
+        if kind.endswith("name_taken"):
+            cx.allow_raise(ValueError, True)
+        cx.target(MODEL.PatternRegistry.add_pattern, reg, name, arg)
+
+        def post(out):
+            if kind.endswith("name_taken"):
+                return [("a_taken_name_is_refused", out.kind == "raise"), ("the_registered_pattern_stays", data.get("old") is existing and len(data) == 1)]
+            if not out.returned:
+                return []
+            got = data.get("pat")
+            posts = [("the_pattern_is_registered_under_its_name", got is not None and len(data) == 2 and data.get("old") is existing)]
+            if got is None:
+                return posts
+            if not kind.startswith("list"):
+                posts.append(("the_object_given_is_the_one_registered", got is arg))
+            to = got.fields["_time_options"] if isinstance(got, SymObj) else got._time_options
+            posts.append(("the_registered_pattern_runs_on_the_model_s_clock", to is model_time))
+            return posts
+        cx.ensure(post)
+    return Case(kind, build, crosscheck=False)
+
+
+CONTRACTS.append(Contract("wntr.network.model:PatternRegistry.add_pattern", P + ["C20", "C01"],
+                          [_add_pattern_case(k) for k in ("list_of_multipliers", "pattern_without_time_options", "pattern_with_its_own_time_options",
+                                                          "list_of_multipliers,name_taken", "pattern_with_its_own_time_options,name_taken")]))
+
+
 # ---------------------------------------------------------------------------- the setters through which an element starts / stops using a curve
 
 def _set_curve(el, attr, name):
